@@ -44,7 +44,7 @@ Theorem C42_no_rewrite : forall (evs : list event) (r r' : repo),
     e_status ev = 0%N -> e_override ev = false ->
     forall x, In x (vis_list (r_graph r) (r_view r)) ->
       immb (r_graph r) (r_view r) (e_cfg ev) x = true ->
-      (In x (e_rewritten ev) \/ visb (r_graph r ++ e_new ev) (e_view ev) x = false) ->
+      (In x (rew_eff ev) \/ visb (r_graph r ++ e_new ev) (e_view ev) x = false) ->
       exists w, wc_of (r_view r) (e_ws ev) = Some w
                 /\ immb (r_graph r) (r_view r) (e_cfg ev) w = true
                 /\ implicit_wc_cmd (e_cmd ev) = true
@@ -59,7 +59,7 @@ Corollary C42_no_rewrite_mutable_wc : forall (r r' : repo) (ev : event),
              immb (r_graph r) (r_view r) (e_cfg ev) w = false) ->
   forall x, In x (vis_list (r_graph r) (r_view r)) ->
     immb (r_graph r) (r_view r) (e_cfg ev) x = true ->
-    ~ In x (e_rewritten ev) /\ visb (r_graph r ++ e_new ev) (e_view ev) x = true.
+    ~ In x (rew_eff ev) /\ visb (r_graph r ++ e_new ev) (e_view ev) x = true.
 Proof.
   intros r r' ev Hg Ha Hst Hov Hwc x Hx Hi.
   assert (N : ~ Touched r ev x).
@@ -85,7 +85,7 @@ Theorem C42_single_workspace_clean : forall (evs : list event) (r r' : repo) (e 
     e_status ev = 0%N ->
     forall x, In x (vis_list (r_graph r) (r_view r)) ->
       immb (r_graph r) (r_view r) (e_cfg ev) x = true ->
-      ~ (In x (e_rewritten ev) \/ visb (r_graph r ++ e_new ev) (e_view ev) x = false)) r evs.
+      ~ (In x (rew_eff ev) \/ visb (r_graph r ++ e_new ev) (e_view ev) x = false)) r evs.
 Proof. exact run_untouched. Qed.
 
 (** A command succeeds only if every commit it passes to [check_rewritable] is mutable under
@@ -96,10 +96,10 @@ Theorem C42_guarded : forall (evs : list event) (r r' : repo),
   wf_graph (r_graph r) -> run r evs = Some r' ->
   run_prop (fun r ev =>
     (e_status ev = 0%N ->
-       forall t, In t (check_targets (r_graph r) (e_cmd ev)) ->
+       forall t, In t (check_targets (r_graph r) (r_view r) (e_cmd ev)) ->
                  immb (r_graph r) (r_view r) (eff_cfg ev) t = false)
     /\ (e_status ev = 1%N ->
-          exists t, In t (check_targets (r_graph r) (e_cmd ev))
+          exists t, In t (check_targets (r_graph r) (r_view r) (e_cmd ev))
                     /\ immb (r_graph r) (r_view r) (eff_cfg ev) t = true)
     /\ (e_status ev <> 0%N ->
           e_nops ev = 0 /\ e_view ev = r_view r /\ e_new ev = [] /\ e_rewritten ev = [])) r evs.
@@ -113,7 +113,7 @@ Theorem C42_snapshot_on_immutable : forall (evs : list event) (r r' : repo),
     e_status ev = 0%N -> e_cmd ev = CSnapshot ->
     forall w, wc_of (r_view r) (e_ws ev) = Some w ->
       immb (r_graph r) (r_view r) (eff_cfg ev) w = true ->
-      e_rewritten ev = []
+      rew_eff ev = []
       /\ (forall x, In x (vis_list (r_graph r) (r_view r)) ->
                     visb (r_graph r ++ e_new ev) (e_view ev) x = true)
       /\ (forall w', 0 < e_nops ev -> wc_of (e_view ev) (e_ws ev) = Some w' ->
@@ -129,7 +129,7 @@ Theorem C42_checker_spec : forall (strict : bool) (evs : list event) (g : graph)
      | [] => True
      | ev :: t =>
          ((e_override ev = false -> forall x, In x (e_imm_pre ev) ->
-             (In x (e_rewritten ev) \/ ~ In x (e_vis_post ev)) ->
+             (In x (rew_eff ev) \/ ~ In x (e_vis_post ev)) ->
              strict = false
              /\ exists w, wc_of v (e_ws ev) = Some w /\ In w (e_imm_pre ev)
                           /\ implicit_wc_cmd (e_cmd ev) = true
@@ -157,7 +157,7 @@ Definition C42_full : Prop := forall (r r' : repo) (ev : event),
   wf_graph (r_graph r) -> accept r ev = Some r' -> e_status ev = 0%N -> e_override ev = false ->
   forall x, In x (vis_list (r_graph r) (r_view r)) ->
     immb (r_graph r) (r_view r) (e_cfg ev) x = true ->
-    ~ In x (e_rewritten ev).
+    ~ In x (rew_eff ev).
 
 Definition witness_repo : repo :=
   mk_repo [[]; [0]; [1]] (mk_view [2] [] [] [(0%N, 2)]) [].
